@@ -213,19 +213,26 @@ pub fn worker_main<H: Harness>(h: &H, args: &Args) -> WorkerResult {
 			};
 			let mut st = Stats::default();
 			let sc_json = serde_json::to_value(sc).unwrap_or(Value::Null);
+			if std::env::var("VERIF_TRACE").is_ok() {
+				eprintln!("[w{wi}] {label} {sc_json}");
+			}
 			let sc_hash = explore::hash_strs([&sc_json.to_string(), label]);
 			let mut run_err: Option<String> = None;
 			let mut first_log: Option<Vec<String>> = None;
 			let stop = explore::dfs(
 				&cfg,
 				&mut st,
-				|prefix| match h.run(sc, *bounds, prefix) {
+				|prefix| {
+					if std::env::var("VERIF_TRACE").as_deref() == Ok("2") {
+						eprintln!("  prefix {}", serde_json::to_string(prefix).unwrap_or_default());
+					}
+					match h.run(sc, *bounds, prefix) {
 					Ok(e) => e,
 					Err(m) => {
 						run_err.get_or_insert(m);
 						Exec { points: prefix.to_vec(), divergence: None, out: Obs::default() }
 					}
-				},
+				}},
 				|o| explore::hash_strs(o.log.iter()),
 				|ex, _plen| {
 					let fp = explore::hash_strs(ex.out.log.iter()) ^ sc_hash;
